@@ -425,6 +425,9 @@ func nClass(s *Script) string {
 	if s.Unk != "" {
 		c += ",unknown-fields=" + s.Unk
 	}
+	if s.ProtoBody {
+		c += ",protobuf-body"
+	}
 	return c
 }
 
